@@ -8,6 +8,7 @@ import math
 
 import numpy as np
 
+from . import argforms as af
 from . import qc
 from .common import b2f, bits, f2b, unbits
 from .layouts import DTYPES, LAYOUTS, make_batch, outside_untouched
@@ -50,7 +51,11 @@ RULE = ("case = (leaf observables, batch of samples [+ state], expression tree);
         "(leaves, expression). history cases: one composite object built from a valid expression and used along a sequence (sample "
         "tensor overwritten in place, state re-parametrised in place, other batch length, other chain lengths, "
         "statistics_from_samples, statistics() for (num_samples, num_chains) incl. non-divisible / 0 / 1 / > num_samples with fresh or "
-        "user chains (float64/float32, overwrite on/off) and nn_state.sample wrapped on the instance, apply again)")
+        "user chains (float64/float32, overwrite on/off) and nn_state.sample wrapped on the instance, apply again). "
+        "ARGUMENT FORMS (stream `af` of every generated leaf / state / statistics() call): num_samples, num_chains (no 0-d tensor: it would turn the "
+        "running statistics into float32 tensors; no numpy.uint8: ceiling-division idioms negate it), burn_in, steps, the distance c of NeighbourInteraction (no numpy.uint8: `-c` wraps) and the state's "
+        "sizes as Python int / numpy.int64 / int32 / intp / uint8 / 0-d numpy array / 0-d torch tensor; absolute, periodic_bcs, overwrite, gpu as bool / "
+        "int / numpy.bool_ / numpy comparison result / 0-d numpy array / 0-d torch tensor; statistics() by keyword or positionally")
 
 OPS2 = ("add", "sub", "mul")
 
@@ -85,20 +90,25 @@ class TypedLeaf(ObservableBase):
         return samples.to(self.dt).matmul(self.w).add(self.off)
 
 
+LEAF_CTX = {}   # {"ctx": Ctx} while the FIRST instances of a case's leaves are built (counters once per case, not per fresh instance)
+
+
 def make_leaf(spec, idx):
     t = spec["type"]
     if t == "mock":
         return MockLeaf(spec["w"], spec["off"], idx)
     if t == "typed":
         return TypedLeaf(spec["w"], spec["off"], spec["out"], idx)
-    if t == "SigmaX":
-        return SigmaX(absolute=spec.get("absolute", False))
-    if t == "SigmaY":
-        return SigmaY(absolute=spec.get("absolute", False))
-    if t == "SigmaZ":
-        return SigmaZ(absolute=spec.get("absolute", False))
+    # argument forms (round 5): the options of the built-in leaves as the objects callers pass (stream `af` of the leaf spec; the SAME
+    # objects for every fresh instance of this leaf); specs without `af` (stored cases) get the Python literals
+    fm = af.Forms(spec.get("af"), LEAF_CTX.get("ctx"), "leaf ")
+    if t in ("SigmaX", "SigmaY", "SigmaZ"):
+        cls = {"SigmaX": SigmaX, "SigmaY": SigmaY, "SigmaZ": SigmaZ}[t]
+        ab = fm.f("absolute", bool(spec.get("absolute", False)))
+        return cls(ab) if fm.pos(f"{t}(absolute)") else cls(absolute=ab)
     if t == "NI":
-        return NeighbourInteraction(periodic_bcs=spec["periodic"], c=spec["c"])
+        per, c = fm.f("periodic_bcs", bool(spec["periodic"])), fm.i("c", spec["c"], af.NO_U8)
+        return NeighbourInteraction(per, c) if fm.pos("NeighbourInteraction(periodic_bcs, c)") else NeighbourInteraction(periodic_bcs=per, c=c)
     if t == "SWAP":
         return SWAP(spec["A"])
     raise ValueError(t)
@@ -107,11 +117,13 @@ def make_leaf(spec, idx):
 def make_state(s):
     if s is None:
         return None
+    fm = af.Forms(s.get("af"))   # sizes and gpu of the state constructors in the case's argument forms
+    n, h, gpu = fm.i("num_visible", s["n"]), fm.i("num_hidden", s["h"]), fm.gpu()
     if s["kind"] == "pos":
-        return qc.make_positive(s["n"], s["h"], s["am"])
+        return qc.make_positive(n, h, s["am"], gpu=gpu)
     if s["kind"] == "cplx":
-        return qc.make_complex(s["n"], s["h"], s["am"], s["ph"])
-    return qc.make_density(s["n"], s["h"], s["a"], s["am"], s["ph"])
+        return qc.make_complex(n, h, s["am"], s["ph"], gpu=gpu)
+    return qc.make_density(n, h, fm.i("num_aux", s["a"]), s["am"], s["ph"], gpu=gpu)
 
 
 # ---------------------------------------------------------------- expression trees
@@ -433,7 +445,7 @@ def gen_leaves(rng, mode, n, typed=False):
     if typed:   # user-written observables with real values of a fixed element type
         pool.append(lambda: {"type": "typed", "w": [round(rng.gauss(0, 1), 3) for _ in range(n)], "off": round(rng.gauss(0, 1), 3),
                              "out": rng.choice(["f32", "f32", "f64"])})
-    return [rng.choice(pool)() for _ in range(k)]
+    return [{**rng.choice(pool)(), "af": af.new_seed(rng)} for _ in range(k)]
 
 
 DIAG, OFFDIAG = ("SigmaZ", "NI"), ("SigmaX", "SigmaY", "SWAP")
@@ -464,12 +476,13 @@ def gen_state(rng, n):
     h = rng.randrange(1, 4)
     scale = rng.choice([0.1, 0.5, 1.0])
     if kind == "pos":
-        return {"kind": kind, "n": n, "h": h, "am": qc.rand_rbm_params(rng, n, h, scale)}
+        return {"kind": kind, "n": n, "h": h, "am": qc.rand_rbm_params(rng, n, h, scale), "af": af.new_seed(rng)}
     if kind == "cplx":
-        return {"kind": kind, "n": n, "h": h, "am": qc.rand_rbm_params(rng, n, h, scale), "ph": qc.rand_rbm_params(rng, n, h, scale)}
+        return {"kind": kind, "n": n, "h": h, "am": qc.rand_rbm_params(rng, n, h, scale), "ph": qc.rand_rbm_params(rng, n, h, scale),
+                "af": af.new_seed(rng)}
     a = rng.randrange(1, 3)
     return {"kind": kind, "n": n, "h": h, "a": a, "am": qc.rand_prbm_params(rng, n, h, a, scale),
-            "ph": qc.rand_prbm_params(rng, n, h, a, scale)}
+            "ph": qc.rand_prbm_params(rng, n, h, a, scale), "af": af.new_seed(rng)}
 
 
 def gen_shared_expr(rng, mode, nleaves):
@@ -513,7 +526,11 @@ def one_case(ctx, case):
         return ctor_case(ctx, case)
     mode, expr = case["mode"], case["expr"]
     carrier = "int" if mode == "mock" else "float"
-    leaves = [make_leaf(s, i) for i, s in enumerate(case["leaves"])]
+    LEAF_CTX["ctx"] = ctx
+    try:
+        leaves = [make_leaf(s, i) for i, s in enumerate(case["leaves"])]
+    finally:
+        LEAF_CTX.pop("ctx", None)
     st = make_state(case["state"])
     dt = case.get("dtype", "f64")   # element type of the sample batch handed to the composite AND to its parts
     samples = make_batch(case["samples"], case["n"], "contig", dt)[0]
@@ -885,7 +902,9 @@ def fixed_dtype_cases():
             st = gen_state(rng, n)
         for e in shapes:
             k += 1
-            yield {"mode": "real", "stream": "dtype", "n": n, "leaves": leaves, "expr": e, "samples": samples, "state": st,
+            # the options of the built-in parts in this case's argument forms (stream chosen by the case index: fixed cases stay fixed)
+            lv = [dict(sp, af=1606 * k + j) if sp["type"] in ("SigmaX", "SigmaY", "SigmaZ", "NI") else sp for j, sp in enumerate(leaves)]
+            yield {"mode": "real", "stream": "dtype", "n": n, "leaves": lv, "expr": e, "samples": samples, "state": st,
                    "layout": LAYOUTS[k % len(LAYOUTS)], "dtype": dt, "share": k % 7 == 0}
 
 
@@ -962,7 +981,8 @@ def gen_history(rng, mode, depth):
     for (ns, nc) in rng.sample(STAT_PAIRS, 3) + [(rng.randrange(1, 10), rng.randrange(0, 11))]:
         user = rng.choice([None, None, "f64", "f32"])
         stats.append({"ns": ns, "nc": nc, "burn_in": rng.randrange(0, 3), "steps": rng.randrange(0, 3), "seed": rng.randrange(1 << 30),
-                      "user": user, "rows": None if user is None else mk(n, rng.randrange(1, 4)), "overwrite": rng.random() < 0.5})
+                      "user": user, "rows": None if user is None else mk(n, rng.randrange(1, 4)), "overwrite": rng.random() < 0.5,
+                      "af": af.new_seed(rng)})
     c["stats"] = stats
     return c
 
@@ -1099,12 +1119,29 @@ def history_case(ctx, case):
         c_exp = len(q["rows"]) if user is not None else (min(nc, ns) if nc != 0 else ns)
         T_exp = -(-ns // c_exp)
         torch.manual_seed(q["seed"])
-        r, err, calls = record_run(st, user, lambda u: obj.statistics(st, num_samples=ns, num_chains=nc, burn_in=q["burn_in"], steps=q["steps"],
-                                                                      initial_state=u, overwrite=q["overwrite"]))
+        # argument forms (round 5): the counts as numpy / torch integer objects, `overwrite` as a truthy / falsy object, by keyword or
+        # positionally; num_samples / num_chains never as a 0-d torch tensor (see notes/C16.md: the clean code then computes the running
+        # statistics in float32 tensors); the model and the oracles are told the VALUES ns, nc, burn_in, steps, overwrite
+        fm = af.Forms(q.get("af"), ctx, "statistics ")
+        a_ns, a_nc = fm.i("num_samples", ns, af.COUNT_INT), fm.i("num_chains", nc, af.COUNT_INT)
+        a_bi, a_st, a_ow = fm.i("burn_in", q["burn_in"]), fm.i("steps", q["steps"]), fm.f("overwrite", bool(q["overwrite"]))
+        if fm.pos("statistics(nn_state, num_samples, num_chains, burn_in, steps, initial_state, overwrite)"):
+            r, err, calls = record_run(st, user, lambda u: obj.statistics(st, a_ns, a_nc, a_bi, a_st, u, a_ow))
+        else:
+            r, err, calls = record_run(st, user, lambda u: obj.statistics(st, num_samples=a_ns, num_chains=a_nc, burn_in=a_bi, steps=a_st,
+                                                                          initial_state=u, overwrite=a_ow))
         ctx.count("history:statistics_runs"); ctx.count("history:nondivisible" if ns % c_exp else "history:divisible")
         if err is not None:
             ctx.oracle("history: statistics() of a composite does not raise", False, sub, detail={"raised": err}, sig=f"{sig}/stats-raised",
                        theorem=THEOREMS["stats"])
+            continue
+        try:   # the VALUES of what was returned / handed to the sampler (numpy integer objects count by their value)
+            r = {k_: (int(v_) if k_ == "num_samples" else float(v_)) for k_, v_ in r.items()}
+            for cl in calls:
+                cl.update(k=af.plain(cl["k"]), num_samples=af.plain(cl["num_samples"]), overwrite=af.plain(cl["overwrite"]))
+        except Exception as e:  # noqa: BLE001
+            ctx.oracle("history: statistics() returns numbers (mean, variance, std_error, num_samples)", False, sub,
+                       detail={"raised": type(e).__name__, "returned": repr(r)[:300]}, sig=f"{sig}/stats-raised", theorem=THEOREMS["stats"])
             continue
         ctx.oracle("history: statistics() draws ceil(num_samples / chains) times, each continuing the chains of the previous draw",
                    len(calls) == T_exp and all(len(cl["ret_copy"]) == c_exp for cl in calls)
